@@ -596,6 +596,14 @@ func c08Run(ctx *core.Ctx) {
 			}
 		}
 	}
+	// lengths around the block sizes a fill or copy loop might use: every data kind, every cell compared
+	for _, l := range []int{15, 16, 17, 63, 64, 65, 127, 128, 129, 192, 255, 256, 257, 1024} {
+		for _, kind := range []string{"ints", "floats", "bools", "constint", "constfloat", "constbool", "conststring", "constnil"} {
+			if ctx.Mine() {
+				execNew(newCase{Cols: []colSpec{{Name: "a", Kind: kind, Len: l}, {Name: "b", Kind: "ints", Len: l}}})
+			}
+		}
+	}
 	for _, s := range cells {
 		if s == nilMark {
 			continue
@@ -642,6 +650,16 @@ func c08Run(ctx *core.Ctx) {
 			}
 			if ctx.Mine() {
 				execProj(projCase{Shape: shape, Op: "drop", Cols: cols})
+			}
+		}
+		// Drop lists naming a column twice, and naming columns that do not exist
+		for _, u := range universe {
+			for _, v := range append(append([]string{}, universe...), "zz") {
+				for _, cols := range [][]string{{u, u}, {u, v, u}, {v, u, u}, {u, u, u, u}, {"zz"}, {"zz", u}, {u, "zz", "yy"}} {
+					if ctx.Mine() {
+						execProj(projCase{Shape: shape, Op: "drop", Cols: cols})
+					}
+				}
 			}
 		}
 		// Slice: all bounds around 0 and n
